@@ -85,6 +85,8 @@ js::Value Op::to_json() const
             s.set("main_first", Value::Bool(true));
         if (misaligned_bufs)
             s.set("misaligned_caller_buffers", Value::Bool(true));
+        if (adjacent_bufs)
+            s.set("adjacent_caller_buffers", Value::Bool(true));
         if (strategy == sim::ST_REPLAY)
         {
             Value arr = Value::Arr();
@@ -151,6 +153,7 @@ Op Op::from_json(const js::Value &v)
         o.garbage_seed = s->getu("garbage_seed", 0);
         o.main_first = s->getb("main_first");
         o.misaligned_bufs = s->getb("misaligned_caller_buffers");
+        o.adjacent_bufs = s->getb("adjacent_caller_buffers");
         if (const js::Value *arr = s->find("schedule"))
             for (auto &e : arr->a)
                 if (e.a.size() == 4)
@@ -205,7 +208,7 @@ struct Gen
     const GenLimits &lim;
     bool fault_free;
     // swarm: which fault kinds this run may use
-    bool en_shortfall, en_dirty_heap, en_dirty_bufs, en_icv, en_fine, en_misalign;
+    bool en_shortfall, en_dirty_heap, en_dirty_bufs, en_icv, en_fine, en_misalign, en_adjacent;
     Gen(uint64_t seed, const GenLimits &l) : r(seed), lim(l) {}
 
     unsigned pick_log(unsigned maxlog)
@@ -309,6 +312,7 @@ struct Gen
         o.dirty_heap = en_dirty_heap && r.chance(3, 4);
         o.dirty_bufs = en_dirty_bufs && r.chance(3, 4);
         o.misaligned_bufs = en_misalign && r.chance(1, 2);
+        o.adjacent_bufs = en_adjacent && r.chance(1, 2);
         if (lim.coarse || !en_fine)
         {
             o.strategy = r.chance(1, 4) ? sim::ST_SERIAL_IDENTITY : sim::ST_SERIAL_PERM;
@@ -560,6 +564,7 @@ Plan generate(const std::string &profile, uint64_t seed, const GenLimits &lim)
     g.en_icv = r.chance(2, 3);
     g.en_fine = r.chance(5, 6);
     g.en_misalign = r.chance(1, 2);
+    g.en_adjacent = r.chance(1, 2);
     static const int cores[] = {1, 2, 3, 4, 4, 6, 8, 8, 12, 16, 32, 64, 96, 128};
     static const int limits[] = {1, 2, 3, 4, 8, 16, 64, 64, 64, 64, 128, 128};
     p.machine.nthreads_var = r.pick(cores);
